@@ -137,8 +137,12 @@ def iterative_rejection_inmem(
     init_batch_size=None,
     growth_factor=128,
     n_linear_samples=1,
+    max_prior_samples=None,
 ):
     n_total_samples = len(prior_samples_batch)
+    if max_prior_samples is not None:
+        # never process more than the requested number of prior samples
+        n_total_samples = min(n_total_samples, int(max_prior_samples))
 
     # The "magic numbers" below control how fast the iterative batches grow
     # in size, and the maximum number of iterations
